@@ -1,4 +1,4 @@
-// common.rs : the harness's fixed type universe (components K0..K5, events G0..G3, T0..T3),
+// common.rs : the harness's fixed type universe (components K0..K9, events G0..G3, T0..T3),
 // the item renderer, and the dynamic handler whose parameters are chosen at run time.
 // Everything here uses the public evenio API only (plus evenio::verif for snapshots).
 #![allow(clippy::type_complexity, dead_code)]
@@ -109,6 +109,29 @@ pub struct K5 {
     v: u64,
 }
 
+// four more plain components, so that archetypes with up to ten columns exist (lookups by component index beyond the
+// first eight columns, merges of long component lists)
+#[derive(Component)]
+pub struct K6 {
+    s: u64,
+    v: u64,
+}
+#[derive(Component)]
+pub struct K7 {
+    s: u64,
+    v: u64,
+}
+#[derive(Component)]
+pub struct K8 {
+    s: u64,
+    v: u64,
+}
+#[derive(Component)]
+pub struct K9 {
+    s: u64,
+    v: u64,
+}
+
 macro_rules! comp_plain {
     ($t:ident, $tag:expr) => {
         impl Comp for $t {
@@ -128,6 +151,10 @@ macro_rules! comp_plain {
 comp_plain!(K0, 0);
 comp_plain!(K3, 3);
 comp_plain!(K5, 5);
+comp_plain!(K6, 6);
+comp_plain!(K7, 7);
+comp_plain!(K8, 8);
+comp_plain!(K9, 9);
 impl Comp for K1 {
     const TAG: u32 = 1;
     fn mk(s: u64, v: u64) -> Self {
@@ -838,6 +865,10 @@ macro_rules! with_comp {
             3 => { type $C = K3; $body }
             4 => { type $C = K4; $body }
             5 => { type $C = K5; $body }
+            6 => { type $C = K6; $body }
+            7 => { type $C = K7; $body }
+            8 => { type $C = K8; $body }
+            9 => { type $C = K9; $body }
             t => panic!("harness: unknown component tag {t}"),
         }
     };
@@ -879,8 +910,8 @@ impl<ES: evenio::event::EventSet + 'static> DynSender for SenderP<ES> {
             2 => sender.send_to(target, T2::mk(s, v).unwrap()),
             3 => sender.send_to(target, T3::mk(s, v).unwrap()),
             10 => sender.despawn(target),
-            20..=25 => with_comp!(tag - 20, C => sender.insert(target, C::mk(s, v))),
-            40..=45 => with_comp!(tag - 40, C => sender.remove::<C>(target)),
+            20..=29 => with_comp!(tag - 20, C => sender.insert(target, C::mk(s, v))),
+            40..=49 => with_comp!(tag - 40, C => sender.remove::<C>(target)),
             t => panic!("harness: unknown targeted tag {t}"),
         }
     }
